@@ -37,8 +37,9 @@ RULE = ('a case = one interval set (or ordered pair of sets) in one input order,
         'extend = an extended interval is cut at a contig end; clip = an interval sticks out; pairs = the two sets '
         'share at least one base')
 ASSUMPTIONS = [
-    'intervals are non-empty half-open [a,b) with 0 <= a < b <= S (zero-length intervals are executed for pileup/mask '
-    'on the smallest sizes but not judged: the statement does not name them)',
+    'intervals are half-open [a,b) with 0 <= a <= b <= S; zero-length intervals [p,p) cover no base and are part of the '
+    'pileup / mask sub-space on the smallest sizes and of the unique_intersect / jaccard / forbes pairs (S <= 3); the other '
+    'sub-spaces use non-empty intervals',
     'count_overlap / intersect are judged only on pairs of internally non-overlapping sets (DESIGN 4.3); '
     'merge_intervals only on start-sorted input (DESIGN 4.4); jaccard / forbes get start-sorted input as their docstring asks',
     'jaccard with an empty union and forbes with an empty operand are undefined (0/0) and not judged',
@@ -148,6 +149,9 @@ def _specs(tier, seed):
                 out.append({'space': 'pair_multi', 'S': S, 'kmax': 3, 'sel': 'total<=4'})
     for S in range(1, 4):
         out.append({'space': 'pair_uniq', 'S': S, 'kmax': 2 if (q and S == 3) else 3})
+    # zero-length intervals [p,p) (they cover no base) among the operands of the mask-based pair functions
+    for S in range(1, (4 if q else 5)):
+        out.append({'space': 'pair_multi', 'S': S, 'kmax': 2, 'sel': 'all', 'zero': True})
     return out
 
 
@@ -198,6 +202,8 @@ def _outer(space, S, kmax, variant=None):
         gen = M.sequences if variant == 'all' else M.multisets
         return [s for s in gen(_items(space, S), kmax) if M.internally_disjoint(s)]
     if space == 'pair_multi':
+        if variant == 'zero':
+            return list(M.multisets(list(M.all_intervals(S)) + M.zero_length_intervals(S), kmax))
         return list(M.multisets(_items(space, S), kmax))
     if space == 'pair_uniq':
         return list(M.sequences(_items(space, S), kmax))
@@ -207,7 +213,7 @@ def _outer(space, S, kmax, variant=None):
 def _variant(spec):
     if spec.get('grid'):
         return spec['grid']
-    if spec['space'] == 'cov':
+    if spec['space'] in ('cov', 'pair_multi'):
         return 'zero' if spec.get('zero') else None
     if spec['space'] in ('pair_disjoint', 'extend'):
         return spec['orders']
@@ -334,9 +340,14 @@ def _iter_cases(spec):
             for j, b in enumerate(outer):
                 if not _sel_ok(sel, len(a), len(b)):
                     continue
+                if spec.get('zero') and not any(x == y for x, y in tuple(a) + tuple(b)):
+                    continue
                 if mod > 1 and (i + j) % mod != rem:
                     continue
-                yield {'space': 'pair_multi', 'S': S, 'a': [list(x) for x in a], 'b': [list(x) for x in b]}
+                c = {'space': 'pair_multi', 'S': S, 'a': [list(x) for x in a], 'b': [list(x) for x in b]}
+                if spec.get('zero'):
+                    c['zero_length'] = True
+                yield c
     elif sp == 'pair_uniq':
         for i in range(k, len(outer), K):
             for b in outer:
@@ -536,7 +547,7 @@ def check_cov(res, case):
     cx = Ctx(res, case)
     cov = M.coverage(ivs, S)
     msk = M.mask(ivs, S)
-    judged = not case.get('zero')
+    judged = True       # zero-length intervals [p,p) cover no base: the per-base definition applies to them as to any other
     # facts about the case: how the intervals relate, whether position 0 / the last base is covered; the input order
     # is a feature only for the mask functions (they sort; the pileup functions are order-free by construction)
     feats0 = {'relation': M.relation(ivs), 'boundary': boundary_class(ivs, S)}
@@ -573,7 +584,7 @@ def check_cov(res, case):
     judge_rle('get_pileup', 'pileup-equals-coverage', cov, st, v)
     st, v = cx.call(lambda: get_boolean_mask(mk_interval(ivs), S), 'get_boolean_mask')
     judge_rle('get_boolean_mask', 'mask-equals-coverage-positive', msk, st, v)
-    if judged:
+    if not case.get('zero'):     # (the Geometry methods refuse an interval that starts at the contig end, e.g. [S,S): not judged)
         st, v = cx.call(lambda: bg.get_pileup(mk_interval(ivs), S), 'bedgraph.get_pileup')
         judge_rle('bedgraph.get_pileup', 'pileup-equals-coverage', cov, st, v)
         g = geometry(((CHR, S),))
@@ -794,7 +805,12 @@ def check_pair_multi(res, case):
     feats = dict(feats0, op='unique_intersect',
                  internal_overlap='both' if all(io) else ('a' if io[0] else ('b' if io[1] else 'none')))
     st, v = cx.call(lambda: unique_intersect(mk_interval(a), mk_interval(b), S), 'unique_intersect')
-    if st == 'raises':
+    if any(x == y for x, y in a):
+        # whether a zero-length ENTRY [p,p) of the first set "intersects" the second is not defined by a per-base reading
+        # (it has no base); executed, counted, not judged.  Zero-length intervals in the SECOND set cover nothing: judged.
+        res.extra['unique_intersect with a zero-length entry in the first set (not judged): %s' % (
+            'raises' if st == 'raises' else ('reported' if any(r[1] == r[2] for r in rows_of(v)) else 'not reported'))] += 1
+    elif st == 'raises':
         cx.fail('unique_intersect-equals-per-base:call-succeeds', feats, exp_u, 'raises ' + exc_name(v), v)
     else:
         got = cx.obs['unique_intersect'] = rows_of(v)
@@ -808,6 +824,8 @@ def check_pair_multi(res, case):
         plans = [('jaccard', 'jaccard-equals-per-base', ej, lambda: jaccard({CHR: S}, mk_interval(a), mk_interval(b))),
                  ('forbes', 'forbes-equals-per-base', ef, lambda: forbes({CHR: S}, mk_interval(a), mk_interval(b))),
                  ('Geometry.jaccard', 'jaccard-equals-per-base', ej, lambda: g.jaccard(mk_interval(a), mk_interval(b)))]
+        if case.get('zero_length'):
+            plans = plans[:2]       # the Geometry methods refuse an interval that starts at the contig end ([S,S)): not judged
         for op, clause, exp, fn in plans:
             feats = dict(feats0, op=op)
             st, v = cx.call(fn, op)
